@@ -61,7 +61,7 @@ type inst struct {
 }
 
 type stats struct {
-	Files, Probes, GoStmts, MapRanges, MapRangesSkipped, AccessProbes, ImportSwaps, ChanOps, ChanOpsSkipped, StateVars, NoteKeys, MapProbes int
+	Files, Probes, GoStmts, MapRanges, MapRangesSkipped, AccessProbes, ImportSwaps, ChanOps, ChanOpsSkipped, StateVars, NoteKeys, MapProbes, Selects int
 	Skipped                                                                        []string
 }
 
@@ -282,8 +282,129 @@ func (in *inst) run() {
 			x.Body = in.list(x.Body, false, x.Pos())
 		}
 	}
+	in.rewriteSelects()
 	in.rewriteChannels()
 	in.swapImports()
+}
+
+// rewriteSelects turns every select statement into a call of simrt.Select
+// followed by a switch over the index of the clause that proceeded:
+//
+//	{
+//		_vsi, _vsv, _vsok := simrt.Select(hasDefault, simrt.SelSend(ch, v), simrt.SelRecv(ch2), ...)
+//		_, _ = _vsv, _vsok
+//		switch _vsi {
+//		case 0: body
+//		case 1: var _vz T; if _vsv != nil { _vz = _vsv.(T) }; x, ok := _vz, _vsok; body
+//		case -1: default body
+//		}
+//	}
+//
+// Channel and value expressions are evaluated once, in source order, as in Go.
+func (in *inst) rewriteSelects() {
+	build := func(sl *ast.SelectStmt, label *ast.Ident) ast.Stmt {
+		in.stats.Selects++
+		iv, vv, okv := in.tmp("si"), in.tmp("sv"), in.tmp("sok")
+		args := []ast.Expr{ast.NewIdent("false")}
+		sw := &ast.SwitchStmt{Tag: ast.NewIdent(iv), Body: &ast.BlockStmt{}}
+		n := 0
+		for _, cl := range sl.Body.List {
+			cc := cl.(*ast.CommClause)
+			if cc.Comm == nil {
+				args[0] = ast.NewIdent("true")
+				sw.Body.List = append(sw.Body.List, &ast.CaseClause{List: []ast.Expr{&ast.BasicLit{Kind: token.INT, Value: "-1"}}, Body: cc.Body})
+				continue
+			}
+			var pre []ast.Stmt
+			recv := func(u ast.Expr, lhs []ast.Expr, tok token.Token) {
+				ue := u.(*ast.UnaryExpr)
+				for {
+					if p, ok := ue.X.(*ast.ParenExpr); ok {
+						ue.X = p.X
+						continue
+					}
+					break
+				}
+				args = append(args, &ast.CallExpr{Fun: sel("simrt", "SelRecv"), Args: []ast.Expr{ue.X}})
+				if len(lhs) == 0 {
+					return
+				}
+				var t ast.Expr
+				if tv, ok := in.info.Types[ue.X]; ok && tv.Type != nil {
+					if ct, ok := tv.Type.Underlying().(*types.Chan); ok {
+						if name, ok := in.typeName(ct.Elem()); ok {
+							t, _ = parseExpr(name)
+						}
+					}
+				}
+				if t == nil {
+					fmt.Fprintf(os.Stderr, "instrument: %s: select receives a value whose type cannot be named here\n", in.fset.Position(sl.Pos()))
+					os.Exit(1)
+				}
+				zv := in.tmp("sz")
+				pre = append(pre,
+					&ast.DeclStmt{Decl: &ast.GenDecl{Tok: token.VAR, Specs: []ast.Spec{&ast.ValueSpec{Names: []*ast.Ident{ast.NewIdent(zv)}, Type: t}}}},
+					&ast.IfStmt{Cond: &ast.BinaryExpr{X: ast.NewIdent(vv), Op: token.NEQ, Y: ast.NewIdent("nil")},
+						Body: &ast.BlockStmt{List: []ast.Stmt{&ast.AssignStmt{Lhs: []ast.Expr{ast.NewIdent(zv)}, Tok: token.ASSIGN,
+							Rhs: []ast.Expr{&ast.TypeAssertExpr{X: ast.NewIdent(vv), Type: t}}}}}})
+				rhs := []ast.Expr{ast.NewIdent(zv)}
+				if len(lhs) == 2 {
+					rhs = append(rhs, ast.NewIdent(okv))
+				}
+				pre = append(pre, &ast.AssignStmt{Lhs: lhs, Tok: tok, Rhs: rhs})
+			}
+			switch c := cc.Comm.(type) {
+			case *ast.SendStmt:
+				args = append(args, &ast.CallExpr{Fun: sel("simrt", "SelSend"), Args: []ast.Expr{c.Chan, c.Value}})
+			case *ast.ExprStmt:
+				x := c.X
+				for {
+					if p, ok := x.(*ast.ParenExpr); ok {
+						x = p.X
+						continue
+					}
+					break
+				}
+				recv(x, nil, token.ILLEGAL)
+			case *ast.AssignStmt:
+				x := c.Rhs[0]
+				for {
+					if p, ok := x.(*ast.ParenExpr); ok {
+						x = p.X
+						continue
+					}
+					break
+				}
+				recv(x, c.Lhs, c.Tok)
+			}
+			sw.Body.List = append(sw.Body.List, &ast.CaseClause{List: []ast.Expr{&ast.BasicLit{Kind: token.INT, Value: strconv.Itoa(n)}},
+				Body: append(pre, cc.Body...)})
+			n++
+		}
+		var swStmt ast.Stmt = sw
+		if label != nil {
+			swStmt = &ast.LabeledStmt{Label: label, Stmt: sw}
+		}
+		return &ast.BlockStmt{List: []ast.Stmt{
+			&ast.AssignStmt{Lhs: []ast.Expr{ast.NewIdent(iv), ast.NewIdent(vv), ast.NewIdent(okv)}, Tok: token.DEFINE,
+				Rhs: []ast.Expr{&ast.CallExpr{Fun: sel("simrt", "Select"), Args: args}}},
+			&ast.AssignStmt{Lhs: []ast.Expr{ast.NewIdent("_"), ast.NewIdent("_")}, Tok: token.ASSIGN, Rhs: []ast.Expr{ast.NewIdent(vv), ast.NewIdent(okv)}},
+			swStmt,
+		}}
+	}
+	astutil.Apply(in.file, nil, func(c *astutil.Cursor) bool {
+		switch x := c.Node().(type) {
+		case *ast.SelectStmt:
+			if _, labelled := c.Parent().(*ast.LabeledStmt); !labelled {
+				c.Replace(build(x, nil))
+			}
+		case *ast.LabeledStmt:
+			if sl, ok := x.Stmt.(*ast.SelectStmt); ok {
+				c.Replace(build(sl, x.Label))
+			}
+		}
+		return true
+	})
 }
 
 // rewriteChannels redirects channel operations to the simulator: `ch <- v`,
